@@ -31,11 +31,18 @@ RULE = ("cases = (DFA, retain_names) for minify(), plus minify=True paths of uni
         "states over {a,b} incl. partial ones (thorough), then shaped random DFAs ≤7 states: unreachable states, "
         "dead states entered explicitly, dead/non-final initial state, empty/universal languages, duplicated "
         "states, adversarial name pools (-1,-2,… / tuples / frozensets); sequences of 2–4 calls on ONE object (at least one "
-        "with minify=True, whose result is checked for language and minimality); non-trivial = source has ≥3 reachable "
+        "with minify=True, whose result is checked for language and minimality); the same sequences — preceded by 0–2 "
+        "unjudged queries, one step often repeated — on operands built under allow_mutable_automata=True from PLAIN "
+        "set/dict containers (option left on or switched off again for the calls), every minify=True result judged "
+        "(language, minimality, minimal-again, exact retained names) against a FROZEN TWIN = the definition as built; "
+        "non-trivial = source has ≥3 reachable "
         "states and minimisation merges or removes at least one of them; distinct = distinct encoded sources")
 ASSUMPTIONS = [
     "sources are valid DFAs built through the real constructor; no state is literally None",
     "the result is compared up to renaming of states (block ids / counter values are arbitrary)",
+    "mutable-automata option: the caller does not mutate the containers it handed over (the documented contract of the "
+    "option); whether the LIBRARY changes them is C18's clause and only counted here — results are judged against the "
+    "definition as built",
 ]
 EXPLANATION = ("Theorems C05_* (Props/C05.lean) are about the model of _minify; this run ties the model to the code and "
                "evaluates language preservation and exact minimality on the real results with independent oracles.")
